@@ -25,6 +25,11 @@ def lists(node, acc):
             lists(c, acc)
         for d in node.get("d") or []:
             lists(d, acc)
+        for key in ("ctor", "ext"):          # class nodes: constructor function and heritage expression
+            for c in node.get(key) or []:
+                lists(c, acc)
+        if node.get("t") in ("classd", "classe") and node.get("ctor"):
+            acc.append((node["ctor"], 0))    # (deleting the constructor: handled by mode "del" below)
     return acc
 
 
@@ -39,11 +44,11 @@ def reductions(prog):
             k, i = lists(root2, [])[n]
             node = k[i]
             t = node["t"]
-            stmt = t in ("expr", "var", "let", "const", "fdecl", "block", "if", "for", "return", "throw", "try", "switch", "break", "continue", "case", "forof", "evalcode", "varp", "letp", "constp", "with")
-            if t in ("pel", "arr") or (t == "prop" and mode != "del"):
+            stmt = t in ("expr", "var", "let", "const", "fdecl", "block", "if", "for", "return", "throw", "try", "switch", "break", "continue", "case", "forof", "evalcode", "varp", "letp", "constp", "with", "classd")
+            if t in ("pel", "arr") or (t in ("prop", "member") and mode != "del") or (t == "classd" and mode != "del"):
                 continue
             if mode == "del":
-                if not stmt and t != "prop":
+                if not stmt and t not in ("prop", "member") and not (t == "fn" and k is not None and len(k) == 1 and i == 0 and mode == "del" and False):
                     continue
                 # structural children (blocks of if/for/try) cannot be deleted, only emptied
                 del k[i]
